@@ -66,6 +66,7 @@ func TestVerifC14(t *testing.T) {
 		HTTP:          true,
 		Alphabet:      verifc14.HTTPAlphabet(),
 		SetWait:       retry.VerifC14SetWait,
+		Clock:         verifc14.ClockSeam{Advance: retry.VerifC14Advance, Reset: retry.VerifC14ResetClock, Reads: retry.VerifC14ClockReads},
 		Reports:       verifc14.HTTPReports,
 		DecodePayload: c14Decode,
 		// client.Stop closes stopCh and returns; contextWithStop's goroutine cancels the export.
